@@ -404,3 +404,5 @@ ASSUMPTIONS = [
 OUTSIDE = ['exceptions raised by coroutine bodies', 'process() re-entered from inside a body',
            'histories longer than the bounds', 'the @coroutine decorator / World lookup',
            'two processors sharing one generator']
+
+TECHNIQUE = 'bounded symbolic execution (symx/z3) of start/kill/process histories including actions from inside coroutine bodies, state-machine oracle'
